@@ -797,6 +797,21 @@ impl Runner {
                 let s = self.settle();
                 self.emit(&format!("wst {}", s));
             }
+            ["wfsall"] => {
+                // run the worker until it is idle (or dead), failing every fdatasync on the way
+                if self.store.is_none() {
+                    return self.emit("wst none");
+                }
+                let mut st = self.settle();
+                let mut n = 0;
+                while !(st.starts_with("idle") || st.starts_with("dead") || st == "stuck") && n < 100000 {
+                    let out = if st.starts_with("sync") { Outcome::Eio } else { Outcome::Ok };
+                    let _ = gate::release(out);
+                    st = self.settle();
+                    n += 1;
+                }
+                self.emit(&format!("wst {}", st));
+            }
             ["wack", cb] => {
                 if self.store.is_none() {
                     return self.emit("wst none");
